@@ -632,7 +632,28 @@ func (r *ruler) v7() {
 		okPush := len(ps) == 1 && ps[0].Args[0] == "M" && ps[0].Args[1] == val
 		var ok bool
 		if top {
-			ok = strings.Join(seq, ";") == "IP;ResetSP;Push" && okPush && strings.HasPrefix(absint.Key(pa.Final["ip"]), "(len(deref(CR.CS))")
+			// V17: at top level nothing but the end of Run takes the value off the
+			// stack, and it does so iff Run was asked for the result
+			rr := condsWith(pa, "retResult")
+			asked, decided := false, len(rr) == 1
+			if decided {
+				asked = strings.HasSuffix(rr[0], ":= true") != strings.HasPrefix(rr[0], "!")
+				variant += fmt.Sprintf(", result asked for: %v", asked)
+				key = r.key("RET", "protocol "+variant)
+			}
+			k17 := r.key("RET", "top-level return leaves what the end of Run takes "+variant)
+			switch {
+			case !decided:
+				r.s.Bad("V17", k17, r.ppos(pa), "a return outside any function pushes its value whether or not Run was asked for a result; Run(false) (script mode, where statements are compiled to leave nothing) never pops it: the operand stack is one slot higher after the statement than before", pa.Describe()...)
+				ok = strings.Join(seq, ";") == "IP;ResetSP;Push" && okPush
+			case asked:
+				ok = strings.Join(seq, ";") == "IP;ResetSP;Push" && okPush
+				r.okIf("V17", k17, pa, ok, "stack reset, the value pushed once for Run to pop", "when Run is asked for the result a top-level return must leave exactly the value")
+			default:
+				ok = strings.Join(seq, ";") == "IP;ResetSP" && len(ps) == 0
+				r.okIf("V17", k17, pa, ok, "stack reset, nothing pushed", "when Run is not asked for the result a top-level return must leave the stack empty")
+			}
+			ok = ok && strings.HasPrefix(absint.Key(pa.Final["ip"]), "(len(deref(CR.CS))")
 		} else {
 			ti := events(pa, "call", ".ToInt")
 			ok = strings.Join(seq, ";") == "IP;PopFrame;PopClosure;Push" && okPush && len(ti) == 1 &&
@@ -954,6 +975,11 @@ func (m *Model) Effects() map[string]*Effect {
 		sig := ""
 		for _, pa := range paths {
 			if pa.End != "next" || pa.Conds[0] != "ctxp.parent == nil" {
+				continue
+			}
+			if c := condsWith(pa, "==(IP#"); op == "RET" && len(c) == 1 && strings.HasSuffix(c[0], ":= true") {
+				// a return outside any function resets the stack and ends the run:
+				// nothing compiled after it relies on its effect (V17 rules what it leaves)
 				continue
 			}
 			var f []int
